@@ -260,6 +260,29 @@ def harness_build(bins, log, features=None):
 
 # ---------------------------------------------------------------------------------------------
 # step 5: run
+def harness_env():
+    env = dict(os.environ)
+    env["WACV_REPO"] = REPO
+    env["WACV_VERIF"] = VERIF
+    env["WACV_TARGET"] = target_dir()
+    env["CARGO_NET_OFFLINE"] = "true"
+    return env
+
+
+def prebuild(cfg, log):
+    """`"prebuild": true` in the config: the harness binary builds whatever helper crates or
+    binaries it needs (e.g. the `wac` CLI, a local registry server) when called with --prebuild,
+    once, before the shards start (and during --setup)."""
+    if not cfg.get("prebuild"):
+        return True
+    hb = os.path.join(target_dir(), "debug", cfg["harness_bin"])
+    with Lock("cargo"):
+        p = subprocess.run([hb, "--prebuild", "1"], stdout=subprocess.PIPE, stderr=subprocess.STDOUT, text=True,
+                           env=harness_env(), timeout=7200)
+    log.append(p.stdout[-3000:])
+    return p.returncode == 0
+
+
 def run_shard(cfg, pid, tier, seed, shard, nshards, replay=None, extra_args=None):
     d = run_dir(pid)
     cases = os.path.join(d, "cases.%s.%d" % (tier, shard))
@@ -271,10 +294,7 @@ def run_shard(cfg, pid, tier, seed, shard, nshards, replay=None, extra_args=None
         cmd += extra_args
     if replay:
         cmd += ["--replay", replay]
-    env = dict(os.environ)
-    env["WACV_REPO"] = REPO
-    env["WACV_VERIF"] = VERIF
-    env["WACV_TARGET"] = target_dir()
+    env = harness_env()
     t0 = time.time()
     p = subprocess.run(cmd, stdout=subprocess.PIPE, stderr=subprocess.PIPE, text=True, env=env,
                        timeout=cfg.get("tiers", {}).get(tier, {}).get("timeout_s", 3600))
@@ -327,7 +347,8 @@ def collect(cfg, shard_outs):
                         agg["samples"].append(line.split("\t", 1)[1][:1500])
                 elif line.startswith("!FAIL\t"):
                     parts = line.split("\t")
-                    agg["fail"].append({"id": parts[1], "signature": unesc(parts[2]), "detail": unesc(parts[3]) if len(parts) > 3 else ""})
+                    agg["fail"].append({"id": parts[1], "signature": unesc(parts[2]), "detail": unesc(parts[3]) if len(parts) > 3 else "",
+                                        "shard_lines": lines})
                 elif line.startswith("!NOTE\t"):
                     pass
                 else:
@@ -364,6 +385,9 @@ def collect(cfg, shard_outs):
                         agg["bad"].append(rec)
             if seen != len(lines):
                 agg["infra"].append("driver answered %d of %d cases" % (seen, len(lines)))
+    for rec in agg["fail"]:
+        # attach the case line (the harness writes the case before or after its !FAIL line)
+        rec["case"] = rec.pop("shard_lines", {}).get(rec["id"], "")
     if not agg["samples"]:
         for so in shard_outs:
             if so["harness_rc"] == 0:
@@ -456,6 +480,8 @@ def check(pid, tier, seed, replay=None):
             infra.append("harness build failed (does the repository compile?):\n" + cargo_out[-3000:])
         elif not driver_ok:
             infra.append("driver not built")
+        elif not prebuild(cfg, log):
+            infra.append("harness --prebuild failed:\n" + (log[-1] if log else ""))
         else:
             tcfg = cfg.get("tiers", {}).get(tier, {})
             nshards = int(tcfg.get("shards", 1))
@@ -596,6 +622,13 @@ def write_evidence(pid, tier, seed, cfg, theorems, tables, checker_cmd, agg, bro
 
 def setup():
     t0 = time.time()
+    # regenerate every generated table first: modules import them
+    for name in sorted(os.listdir(os.path.join(VERIF, "checks"))):
+        if re.match(r"C\d+\.json$", name):
+            ok, _ = run_translators(load_cfg(name[:-5]), [])
+            if not ok:
+                print("translator failed for", name)
+                return 1
     with Lock("lake"):
         rc, out = sh(["lake", "build"], cwd=LEAN)
     print(out[-3000:])
@@ -609,7 +642,6 @@ def setup():
                 drivers.append(cfg["driver"])
             if cfg.get("harness_bin"):
                 bins += [cfg["harness_bin"]] + cfg.get("extra_bins", [])
-            run_translators(cfg, [])
     with Lock("lake"):
         rc, out = sh(["lake", "build"] + sorted(set(drivers)), cwd=LEAN)
     print(out[-3000:])
@@ -618,6 +650,15 @@ def setup():
     log = []
     ok, s, out = harness_build(sorted(set(bins)), log)
     print(out[-3000:])
+    if ok:
+        for name in sorted(os.listdir(os.path.join(VERIF, "checks"))):
+            if re.match(r"C\d+\.json$", name):
+                cfg = load_cfg(name[:-5])
+                if cfg.get("prebuild") and cfg.get("harness_bin"):
+                    plog = []
+                    if not prebuild(cfg, plog):
+                        print("prebuild failed for", name, plog[-1] if plog else "")
+                        ok = False
     print("setup done in %.0fs" % (time.time() - t0))
     return 0 if ok else 1
 
